@@ -346,6 +346,67 @@ theorem applyWrites_exists (k : String × List Char) : ∀ (ws : List Write) (bu
         simpa [this] using h
 
 
+/-! ## one buffer entry per eternal variable (repair C12j) -/
+
+/-- what is buffered under `k` after a list of writes only depends on the writes themselves when
+they are replaced by writes that keep the variable and are the same for `k`'s variable -/
+theorem alGet_applyWrites_map (k : String × List Char) (g : Write → Write)
+    (hvar : ∀ w, (g w).var = w.var) (hid : ∀ w, w.var = k.1 → g w = w) :
+    ∀ (ws : List Write) (buf buf' : Buffer), alGet buf' k = alGet buf k →
+    alGet (applyWrites buf' (ws.map g)) k = alGet (applyWrites buf ws) k
+  | [], _, _, h => h
+  | w :: ws, buf, buf', h => by
+    rw [List.map_cons, applyWrites_cons, applyWrites_cons]
+    apply alGet_applyWrites_map k g hvar hid ws
+    rw [alGet_applyWrite, alGet_applyWrite]
+    by_cases hv : w.var = k.1
+    · rw [hid w hv]
+      by_cases hk : k = w.cell
+      · rw [if_pos hk, if_pos hk, ← hk, h]
+      · rw [if_neg hk, if_neg hk]; exact h
+    · have h1 : k ≠ w.cell := fun e => hv (by rw [e]; rfl)
+      have h2 : k ≠ (g w).cell := fun e => hv (by rw [e]; exact (hvar w).symm)
+      rw [if_neg h1, if_neg h2]; exact h
+
+theorem resolveKeys_var (sys : Sys) (ws : List Write) (w : Write) :
+    (if isEternal sys w.var then { w with key := (firstKeyOf ws w.var).getD w.key } else w).var = w.var := by
+  split <;> rfl
+
+/-- **the variables that are not eternal are buffered as before**: the canonical text of the period
+each value was given for -/
+theorem alGet_resolveKeys (sys : Sys) (k : String × List Char) (hk : isEternal sys k.1 = false)
+    (ws : List Write) (buf : Buffer) :
+    alGet (applyWrites buf (resolveKeys sys ws)) k = alGet (applyWrites buf ws) k := by
+  unfold resolveKeys
+  refine alGet_applyWrites_map k _ (resolveKeys_var sys ws) ?_ ws buf buf rfl
+  intro w hw
+  rw [hw, hk]
+  rfl
+
+theorem isEternal_of_var {sys : Sys} {var : Var} (hvar : sys.var? var.name = some var) :
+    isEternal sys var.name = decide (var.defUnit = .eternity) := by
+  unfold isEternal; rw [hvar]
+
+theorem firstKeyOf_some {ws : List Write} {w : Write} (hw : w ∈ ws) :
+    ∃ k, firstKeyOf ws w.var = some k := by
+  unfold firstKeyOf
+  cases hf : ws.find? (fun w' => w'.var == w.var) with
+  | none =>
+    have := List.find?_eq_none.mp hf w hw
+    simp at this
+  | some w' => exact ⟨w'.key, rfl⟩
+
+/-- a resolved write of an eternal variable carries the key of the first write to that variable -/
+theorem resolveKeys_key (sys : Sys) (ws : List Write) (v : String) (hv : isEternal sys v = true) :
+    ∀ w ∈ resolveKeys sys ws, w.var = v → some w.key = firstKeyOf ws v := by
+  intro w hw hwv
+  unfold resolveKeys at hw
+  obtain ⟨w₀, hw₀, rfl⟩ := List.mem_map.mp hw
+  have hvar : w₀.var = v := by rw [← hwv]; exact (resolveKeys_var sys ws w₀).symm
+  obtain ⟨k, hk⟩ := firstKeyOf_some hw₀
+  simp only [hvar, hv, if_true] at hk ⊢
+  rw [hk]; rfl
+
 /-! ## the writes a document produces -/
 
 theorem idxOf_inj_of_mem {l : List String} {a b : String} (ha : a ∈ l) (hb : b ∈ l)
@@ -998,8 +1059,8 @@ theorem addGroupEntity_ok {sys : Sys} {dp : Option String} {g : GroupKind} {pers
           ∃ r0, g.flatRoles.head? = some r0 ∧ own = ownMWrites personsIds kvs.length r0 acc.toAlloc) ∧
         e.memb = (applyM personsIds.length (acc.mws ++ own)).1 ∧
         e.roles = (applyM personsIds.length (acc.mws ++ own)).2) ∧
-      buf' = (if acc.toAlloc = [] then applyWrites buf acc.ws
-              else padBuffer sys g.key e.ids.length (applyWrites buf acc.ws)) := by
+      buf' = (if acc.toAlloc = [] then applyWrites buf (resolveKeys sys acc.ws)
+              else padBuffer sys g.key e.ids.length (applyWrites buf (resolveKeys sys acc.ws))) := by
   unfold addGroupEntity at h
   simp only [Doc.asObj?] at h
   cases hf : foldE (groupStep sys dp g personsIds (kvs.map (fun kv => kv.1.text))) ⟨personsIds, [], []⟩ kvs with
@@ -1920,5 +1981,228 @@ theorem person_instWrites {sys : Sys} {dp : Option String} {ids : List String} {
     All₂ (InstWrites sys sys.personKey dp ids id) kvs wss :=
   All₂.imp (fun a b h => by obtain ⟨vars, ho, hi⟩ := personInstance_ok h; exact ⟨vars, ho, hi⟩)
     (mapE_forall₂ _ kvs wss hm)
+
+/-! ## respelling period keys: the short form and the variables-only form (round 2) -/
+
+theorem All₂.append {α β : Type} {Rel : α → β → Prop} {l₁ : List α} {l₁' : List β} {l₂ : List α} {l₂' : List β}
+    (h₁ : All₂ Rel l₁ l₁') (h₂ : All₂ Rel l₂ l₂') : All₂ Rel (l₁ ++ l₂) (l₁' ++ l₂') := by
+  induction h₁ with
+  | nil => exact h₂
+  | cons hab _ ih => exact .cons hab ih
+
+/-- a top-level entry of a SHORT-form document: under a singular entity key stands ONE instance,
+under any other key what a fully specified document holds there -/
+def ShortEq (sys : Sys) (a b : DKey × Doc) : Prop :=
+  a.1 = b.1 ∧ (if keyIn (sys.singulars.map (·.1)) a.1 = true then InstEq a.2 b.2 else EntEq a.2 b.2)
+
+theorem lookupS_short_rel (sys : Sys) {l l' : List (DKey × Doc)} (h : All₂ (ShortEq sys) l l') (k : String) :
+    (lookupS k l = none ∧ lookupS k l' = none) ∨
+    ∃ d d', lookupS k l = some d ∧ lookupS k l' = some d' ∧
+      (if keyIn (sys.singulars.map (·.1)) (DKey.s k) = true then InstEq d d' else EntEq d d') := by
+  induction h with
+  | nil => exact Or.inl ⟨rfl, rfl⟩
+  | @cons a b l l' hab _ ih =>
+    obtain ⟨ka, va⟩ := a
+    obtain ⟨kb, vb⟩ := b
+    obtain ⟨hk, hv⟩ := hab
+    simp only at hk hv
+    subst hk
+    simp only [lookupS]
+    by_cases e : ka = DKey.s k
+    · simp only [e, if_true]
+      refine Or.inr ⟨va, vb, rfl, rfl, ?_⟩
+      rw [e] at hv; exact hv
+    · simp only [e, if_false]; exact ih
+
+/-- the entries `plural: {singular: instance}` that `explicit_singular_entities` makes -/
+theorem explicit_head_rel (sys : Sys) {l l' : List (DKey × Doc)} (h : All₂ (ShortEq sys) l l') :
+    ∀ (sps : List (String × String)), (∀ sp ∈ sps, keyIn (sys.singulars.map (·.1)) (DKey.s sp.1) = true) →
+    All₂ TopEq
+      (sps.filterMap (fun (sp : String × String) => (lookupS sp.1 l).map (fun d => (DKey.s sp.2, Doc.obj [(DKey.s sp.1, d)]))))
+      (sps.filterMap (fun (sp : String × String) => (lookupS sp.1 l').map (fun d => (DKey.s sp.2, Doc.obj [(DKey.s sp.1, d)]))))
+  | [], _ => .nil
+  | sp :: sps, hs => by
+    have ih := explicit_head_rel sys h sps (fun x hx => hs x (List.mem_cons_of_mem _ hx))
+    have hsp := hs sp List.mem_cons_self
+    rcases lookupS_short_rel sys h sp.1 with ⟨e1, e2⟩ | ⟨d, d', e1, e2, hv⟩
+    · simp only [List.filterMap_cons, e1, e2, Option.map_none]; exact ih
+    · simp only [List.filterMap_cons, e1, e2, Option.map_some]
+      rw [if_pos hsp] at hv
+      refine .cons ⟨rfl, Or.inr ⟨_, _, rfl, rfl, .cons ⟨rfl, hv⟩ .nil⟩⟩ ih
+
+/-- the entries `explicit_singular_entities` keeps as they are -/
+theorem explicit_tail_rel (sys : Sys) {l l' : List (DKey × Doc)} (h : All₂ (ShortEq sys) l l') :
+    All₂ TopEq (l.filter (fun kv => !keyIn (sys.singulars.map (·.1)) kv.1))
+      (l'.filter (fun kv => !keyIn (sys.singulars.map (·.1)) kv.1)) := by
+  induction h with
+  | nil => exact .nil
+  | @cons a b l l' hab _ ih =>
+    obtain ⟨hk, hv⟩ := hab
+    simp only [List.filter_cons, ← hk]
+    cases hc : keyIn (sys.singulars.map (·.1)) a.1 with
+    | true => simpa using ih
+    | false =>
+      rw [hc] at hv
+      simp only [Bool.false_eq_true, if_false] at hv
+      simp only [Bool.not_false, if_true]
+      exact .cons ⟨hk, hv⟩ ih
+
+theorem keyIn_singulars_of_mem (sys : Sys) : ∀ sp ∈ sys.singulars, keyIn (sys.singulars.map (·.1)) (DKey.s sp.1) = true := by
+  intro sp hsp
+  simp only [keyIn, List.contains_eq_mem, List.mem_map, decide_eq_true_eq]
+  exact ⟨sp, hsp, rfl⟩
+
+/-- `explicit_singular_entities` turns short-form documents that differ in spelling only into fully
+specified documents that differ in spelling only -/
+theorem explicitSingular_rel (sys : Sys) {l l' : List (DKey × Doc)} (h : All₂ (ShortEq sys) l l') :
+    All₂ TopEq (explicitSingular sys l) (explicitSingular sys l') := by
+  unfold explicitSingular
+  exact All₂.append (explicit_head_rel sys h sys.singulars (keyIn_singulars_of_mem sys)) (explicit_tail_rel sys h)
+
+/-- the variables-only form: `_person_count` reads the first value of the first variable -/
+theorem personCount_congr {l l' : List (DKey × Doc)} (h : All₂ EntryEq l l') : personCount l = personCount l' := by
+  cases h with
+  | nil => rfl
+  | @cons a b l l' hab _ =>
+    obtain ⟨ka, va⟩ := a
+    obtain ⟨kb, vb⟩ := b
+    obtain ⟨_, hv⟩ := hab
+    simp only at hv
+    rcases hv with e | ⟨kvs, kvs', ea, eb, hall⟩
+    · subst e; rfl
+    · subst ea; subst eb
+      cases hall with
+      | nil => rfl
+      | @cons p q _ _ hpq _ =>
+        obtain ⟨_, x⟩ := p
+        obtain ⟨_, y⟩ := q
+        have : x = y := hpq.2
+        subst this
+        rfl
+
+theorem datedStep_congr (sys : Sys) (si : SetInput) (count : Nat) (store : Store) (a b : DKey × Doc)
+    (h : EntryEq a b) : datedStep sys si count store a = datedStep sys si count store b := by
+  obtain ⟨hk, hv⟩ := h
+  rcases hv with e | ⟨kvs, kvs', ea, eb, hall⟩
+  · have : a = b := Prod.ext hk e
+    rw [this]
+  · unfold datedStep
+    rw [ea, eb, hk]
+    simp only [Doc.asObj?]
+    refine foldE_congr _ _ PairEq ?_ kvs kvs' store hall
+    intro s x y hxy
+    rw [setInputDoc_congr sys si count s b.1 x.1 y.1 x.2 hxy.1, hxy.2]
+
+theorem undatedStep_congr (sys : Sys) (dp : Option String) (si : SetInput) (count : Nat) (store : Store)
+    (a b : DKey × Doc) (h : EntryEq a b) :
+    undatedStep sys dp si count store a = undatedStep sys dp si count store b := by
+  obtain ⟨hk, hv⟩ := h
+  rcases hv with e | ⟨kvs, kvs', ea, eb, _⟩
+  · have : a = b := Prod.ext hk e
+    rw [this]
+  · unfold undatedStep
+    rw [ea, eb]
+    rfl
+
+/-- `build_from_variables` does not see how the period keys are spelt -/
+theorem buildFromVariables_congr (sys : Sys) (dp : Option String) (si : SetInput)
+    (kvs kvs' : List (DKey × Doc)) (h : All₂ EntryEq kvs kvs') :
+    buildFromVariables sys dp si kvs = buildFromVariables sys dp si kvs' := by
+  unfold buildFromVariables
+  rw [personCount_congr h]
+  cases personCount kvs' with
+  | error e => rfl
+  | ok count =>
+    simp only
+    rw [foldE_congr _ _ EntryEq (fun s x y hxy => datedStep_congr sys si count s x y hxy) kvs kvs' [] h]
+    cases foldE (datedStep sys si count) [] kvs' with
+    | error e => rfl
+    | ok s1 =>
+      simp only
+      rw [foldE_congr _ _ EntryEq (fun s x y hxy => undatedStep_congr sys dp si count s x y hxy) kvs kvs' s1 h]
+
+/-- how `build_from_dict` reads the entry under a top-level key, by the shape it recognises in the
+keys of the whole document `kvs` (the conditions are those of `buildFromDict`, in its order) -/
+def DictEq (sys : Sys) (kvs : List (DKey × Doc)) (a b : DKey × Doc) : Prop :=
+  a.1 = b.1 ∧
+  (if kvs.any (fun kv => keyIn (sys.singulars.map (·.1)) kv.1) = true then
+    (if keyIn (sys.singulars.map (·.1)) a.1 = true then InstEq a.2 b.2 else EntEq a.2 b.2)
+  else if (!kvs.isEmpty) = true ∧ kvs.all (fun kv => isEntityKey sys kv.1) = true then EntEq a.2 b.2
+  else if kvs.isEmpty = true ∨ kvs.any (fun kv => keyIn (sys.vars.map (·.name)) kv.1) = true then VarDocEq a.2 b.2
+  else EntEq a.2 b.2)
+
+/-! ## several parallel axes (round 2) -/
+
+/-- the buffer cell an axis writes: its variable at the canonical text of its period -/
+def axisCell (dp : Option String) (a : Axis) : Option (String × List Char) :=
+  match axisKey dp a with
+  | none => none
+  | some k =>
+    match canonKey k with
+    | .error _ => none
+    | .ok ck => some (a.name, ck)
+
+theorem bufferKey_of_not_eternal {sys : Sys} {name : String} (h : isEternal sys name = false) (buf : Buffer)
+    (ck : List Char) : bufferKey sys buf name ck = ck := by
+  unfold bufferKey; rw [h]; rfl
+
+/-- a successful `layAxis` wrote one cell of its variable and nothing else; for a variable that is
+not eternal that cell is the axis' own (`axisCell`) -/
+theorem layAxis_frame {sys : Sys} {dp : Option String} {entKey : String} {step cell cnt : Nat} {multi : Bool}
+    {coords : List Nat} {buf buf' : Buffer} {a : Axis}
+    (h : layAxis sys dp entKey step cell cnt multi coords buf a = .ok buf') :
+    ∃ c c₀, axisCell dp a = some c₀ ∧ c.1 = a.name ∧ (isEternal sys a.name = false → c = c₀) ∧
+      ∀ k, k ≠ c → alGet buf' k = alGet buf k := by
+  unfold layAxis at h
+  cases hv : sys.var? a.name with
+  | none => rw [hv] at h; cases h
+  | some var =>
+    rw [hv] at h
+    simp only at h
+    split at h
+    · cases h
+    · cases hk : axisKey dp a with
+      | none => rw [hk] at h; cases h
+      | some k =>
+        rw [hk] at h
+        simp only at h
+        cases hc : canonKey k with
+        | error e => rw [hc] at h; cases h
+        | ok ck =>
+          rw [hc] at h
+          simp only at h
+          split at h
+          · cases h
+          · cases hm : mapE (fun c => axisCast var (axisValue a cnt c)) coords with
+            | error e => rw [hm] at h; cases h
+            | ok vals =>
+              rw [hm] at h
+              simp only at h
+              cases hs : strideSet (axisArray buf (a.name, bufferKey sys buf a.name ck) cell step var.default) a.index step vals with
+              | error e => rw [hs] at h; cases h
+              | ok arr' =>
+                rw [hs] at h
+                cases h
+                refine ⟨(a.name, bufferKey sys buf a.name ck), (a.name, ck), ?_, rfl, ?_,
+                  fun k hk' => alGet_alSet_ne _ _ _ _ hk'⟩
+                · simp only [axisCell, hk, hc]
+                · intro hne; rw [bufferKey_of_not_eternal hne]
+
+/-! ## the programmatic route: `join_with_persons` (round 2) -/
+
+theorem mapE_getElem? {α β : Type} (f : α → R β) : ∀ (l : List α) (ys : List β), mapE f l = .ok ys →
+    ∀ (i : Nat) (a : α), l[i]? = some a → ∃ b, ys[i]? = some b ∧ f a = .ok b
+  | [], _, h, i, a, ha => by simp at ha
+  | x :: xs, ys, h, i, a, ha => by
+    obtain ⟨y, ys', hy, hys, rfl⟩ := mapE_cons_ok f x xs ys h
+    cases i with
+    | zero =>
+      simp only [List.getElem?_cons_zero, Option.some.injEq] at ha
+      subst ha
+      exact ⟨y, by simp, hy⟩
+    | succ i =>
+      simp only [List.getElem?_cons_succ] at ha
+      obtain ⟨b, hb, hf⟩ := mapE_getElem? f xs ys' hys i a ha
+      exact ⟨b, by simpa using hb, hf⟩
 
 end OFCore.Bld
